@@ -90,7 +90,7 @@ func (s *state) endToEnd(pool *gjs.Pool, cand []*dirSpec, rng *rand.Rand) {
 		}
 	}
 	var nbuilds int64
-	c.ParMap(len(pairs), func(k int) {
+	parMap(len(pairs), c.Workers/4, func(k int) {
 		un, i, dir := units[pairs[k].u], pairs[k].i, progDirs[pairs[k].u]
 		{
 			out := filepath.Join(dir, fmt.Sprintf("out%d.js", i))
